@@ -307,6 +307,59 @@ def shared_object_family(seed, n):
     return out
 
 
+def dictionary_history_family(run):
+    """the verdict on a schema does not depend on what the named-schema dictionary already holds: a schema that defines a
+    name twice is rejected also when that name is in the dictionary before the call (parsed earlier against the same
+    dictionary — the documented child/parent use — or as an earlier branch of the same top-level union)"""
+    defs = {
+        "enum": lambda n: {"type": "enum", "name": n, "symbols": ["A", "B"]},
+        "fixed": lambda n: {"type": "fixed", "name": n, "size": 4},
+        "record": lambda n: {"type": "record", "name": n, "fields": [{"name": "x", "type": "int"}]},
+        "error": lambda n: {"type": "error", "name": n, "fields": [{"name": "x", "type": "int"}]},
+    }
+    for kind, mk in defs.items():
+        for name in ("Twice", "ns.Twice", "a.b.Twice"):
+            first = mk(name)
+            twice = {"type": "record", "name": "Holder", "fields": [{"name": "p", "type": mk(name)}, {"name": "n", "type": "long"},
+                                                                    {"name": "q", "type": {"type": "array", "items": mk(name)}}]}
+            scenarios = {
+                "fresh-dictionary": lambda: fastavro.parse_schema(copy.deepcopy(twice), {}),
+                "name-already-in-dictionary": lambda: (lambda d: (fastavro.parse_schema(copy.deepcopy(first), d),
+                                                                  fastavro.parse_schema(copy.deepcopy(twice), d)))({}),
+                "earlier-union-branch": lambda: fastavro.parse_schema([copy.deepcopy(first), copy.deepcopy(twice)]),
+                "name-already-in-dictionary-expand": lambda: (lambda d: (fastavro.parse_schema(copy.deepcopy(first), d),
+                                                                         fastavro.parse_schema(copy.deepcopy(twice), d, expand=True)))({}),
+            }
+            for sname, fn in scenarios.items():
+                case = {"kind": "redefined-name", "schema": twice, "defined_before": first, "scenario": sname, "tags": ["redefined-name", "dictionary-history", kind]}
+                run.count(case, True, ["redefined-name:dictionary-history"])
+                try:
+                    fn()
+                    run.fail(case, "ill-formed schema (a name defined twice) accepted when the name was %s" % sname, kind="oracle")
+                except fastavro.schema.SchemaParseException:
+                    pass
+                except Exception as e:  # noqa
+                    run.fail(dict(case, error=repr(e)[:200]), "a schema defining a name twice is rejected with %s, not a schema-parse error" % exc_class(e), kind="oracle")
+    # a field whose type is an inline record of kind "error": its default must be a JSON object like a record's
+    for bad in (5, "x", [], True, None, 1.5):
+        for depth in (0, 1):
+            err_t = {"type": "error", "name": "ns.Failure", "fields": [{"name": "code", "type": "int", "default": 0}]}
+            s_ = {"type": "record", "name": "Resp", "fields": [{"name": "ok", "type": "boolean"}, {"name": "failure", "type": err_t, "default": bad}]}
+            if depth:
+                s_ = {"type": "record", "name": "Outer", "fields": [{"name": "inner", "type": s_}]}
+            case = {"kind": "wrong-default:error-kind", "schema": s_, "tags": ["wrong-default", "error-kind"]}
+            run.count(case, True, ["wrong-default:error-kind"])
+            ip = impl_parse(s_)
+            if "ok" in ip:
+                run.fail(case, "ill-formed schema (default %r for a field whose type is an 'error' record) accepted" % (bad,), kind="oracle")
+    for good in ({}, {"code": 3}):
+        s_ = {"type": "record", "name": "Resp", "fields": [{"name": "failure", "type": {"type": "error", "name": "ns.Failure", "fields": [{"name": "code", "type": "int", "default": 0}]}, "default": good}]}
+        ip = impl_parse(s_)
+        run.count({"kind": "valid", "schema": s_}, True, ["valid:error-kind-default"])
+        if "ok" not in ip:
+            run.fail({"kind": "valid", "schema": s_, "tags": ["valid", "error-kind"]}, "specification-valid schema rejected: %s" % ip, kind="oracle")
+
+
 def run(tier, seed):
     run = Run("C11", tier, seed)
     run.rule = ("valid schemas of the generator (nested namespaces incl. explicit empty ones, dotted names, references "
@@ -332,6 +385,7 @@ def run(tier, seed):
     cases += namesake_family(seed, scale(tier, 40))
     cases += shared_object_family(seed, scale(tier, 30))
     provoke_failed_lenient_parse(run)      # a fault in an earlier call must not relax the checks of the calls below
+    dictionary_history_family(run)
     spec = run_batch([{"op": "spec.canon", "schema": to_wire(s)} for k, s in cases])
     model = run_batch([{"op": "parse", "schema": to_wire(s)} for k, s in cases])
     for k, (kind, s) in enumerate(cases):
